@@ -7,6 +7,7 @@ package main
 
 import (
 	"fmt"
+	"math"
 	"os"
 	"path/filepath"
 	"reflect"
@@ -389,6 +390,76 @@ func extraMenu() []callT {
 	}
 }
 
+// extraMenu2: group rules over slices of maps and URLs, unique over values that are not equal to themselves, and calls
+// abandoned because a function supplied by the caller panics (the caller recovers): whatever such a call leaves behind
+// - pooled records, pooled sets, a builder given back twice - the calls after it do not see.
+func extraMenu2() []callT {
+	boom := func(errBuf *strings.Builder, validName, objName, fieldName string, tv reflect.Value) {
+		var m map[string]int
+		m[fieldName] = 1 // assignment to entry in nil map
+	}
+	recovered := func(f func() error) (res string) {
+		defer func() {
+			if r := recover(); r != nil {
+				res = "panicked: " + fmt.Sprint(r)
+			}
+		}()
+		return errText(f())
+	}
+	nan := math.NaN()
+	return []callT{
+		{"Map([]map, either over two maps)", func() []interface{} {
+			return []interface{}{[]map[string]string{{"a": "", "b": ""}, {"a": "x", "b": ""}, {"a": "", "b": ""}}, valid.RM{"a": "either=1", "b": "either=1"}}
+		}, func(a []interface{}) (string, []string) { return errText(valid.Map(a[0], a[1].(valid.RM))), nil }, nil},
+		{"Map([]map, botheq over two maps)", func() []interface{} {
+			return []interface{}{[]map[string]string{{"a": "1", "b": "2"}, {"a": "3", "b": "3"}}, valid.RM{"a": "botheq=2|ab", "b": "botheq=2|ab"}}
+		}, func(a []interface{}) (string, []string) { return errText(valid.Map(a[0], a[1].(valid.RM))), nil }, nil},
+		{"Url(either, both empty)", func() []interface{} {
+			return []interface{}{"http://h/p?k1=&k2=&z=1", valid.RM{"k1": "either=4", "k2": "either=4"}}
+		},
+			func(a []interface{}) (string, []string) { return errText(valid.Url(a[0], a[1].(valid.RM))), nil }, nil},
+		{"Var([]float64 with NaN, unique)", func() []interface{} { return []interface{}{[]string{"unique|uq"}} },
+			func(a []interface{}) (string, []string) {
+				return errText(valid.Var([]float64{nan, 1, 2, nan}, a[0].([]string)...)), nil
+			}, nil},
+		{"Var([2]float32{NaN, 1}, unique)", func() []interface{} { return []interface{}{[]string{"unique|uq"}} },
+			func(a []interface{}) (string, []string) {
+				return errText(valid.Var([2]float32{float32(nan), 1}, a[0].([]string)...)), nil
+			}, nil},
+		{"Var([]int{1,2,3}, unique)", func() []interface{} { return []interface{}{[]int{1, 2, 3}, []string{"unique|uq"}} },
+			func(a []interface{}) (string, []string) { return errText(valid.Var(a[0], a[1].([]string)...)), nil },
+			func() (string, bool) { return "<nil>", true }},
+		{"Var([]string{a,b,a}, unique)", func() []interface{} { return []interface{}{[]string{"a", "b", "a"}, []string{"unique|uq"}} },
+			func(a []interface{}) (string, []string) { return errText(valid.Var(a[0], a[1].([]string)...)), nil }, nil},
+		{"StructForFns(T1, function that panics) recovered", func() []interface{} { return []interface{}{&T1{F: "abc", G: 3}} },
+			func(a []interface{}) (string, []string) {
+				return recovered(func() error {
+					return valid.StructForFns(a[0], valid.RM{"F": "required,boom,to=1~2|after-boom", "G": "boom"}, valid.Name2FnMap{"boom": boom})
+				}), nil
+			}, nil},
+		{"ValidStructForMyValidFn(T2, phone panics) recovered", func() []interface{} { return []interface{}{&T2{Tel: "not-a-phone", Code: "abcdef"}} },
+			func(a []interface{}) (string, []string) {
+				return recovered(func() error { return valid.ValidStructForMyValidFn(a[0], "phone", boom) }), nil
+			}, nil},
+		{"VarForFn(function that panics) recovered", func() []interface{} { return []interface{}{"abc"} },
+			func(a []interface{}) (string, []string) {
+				return recovered(func() error { return valid.VarForFn(a[0], boom) }), nil
+			}, nil},
+		{"MapFn(function that panics) recovered", func() []interface{} { return []interface{}{map[string]string{"k": "v", "j": "w"}} },
+			func(a []interface{}) (string, []string) {
+				return recovered(func() error {
+					return valid.MapFn(a[0], valid.RM{"k": "to=5~9|k-size,boom", "j": "either=3"}, valid.Name2FnMap{"boom": boom})
+				}), nil
+			}, nil},
+		{"UrlForFn(function that panics) recovered", func() []interface{} { return []interface{}{"http://h/p?k=v&j=w"} },
+			func(a []interface{}) (string, []string) {
+				return recovered(func() error {
+					return valid.NewVUrl().SetValidFn("boom", boom).SetRule(valid.RM{"k": "to=5~9|k-size,boom", "j": "botheq=3"}).Valid(a[0])
+				}), nil
+			}, nil},
+	}
+}
+
 // canon makes a result independent of Go map iteration order (group clause order, member order inside a Map group clause).
 func canon(res string) string {
 	if !strings.Contains(res, "explain: they ") {
@@ -446,6 +517,8 @@ func run(c *runner.Ctx) {
 	menu := callMenu()
 	nMain := len(menu)
 	menu = append(menu, extraMenu()...)
+	nExtra1 := len(menu)
+	menu = append(menu, extraMenu2()...)
 	// fresh-state results (scheduler inactive, fresh cache), cross-checked with the model
 	fresh := make([]string, len(menu))
 	for i, cl := range menu {
@@ -631,7 +704,7 @@ func run(c *runner.Ctx) {
 	// the calls of the extra menu with five calls of the main menu: every sequence up to length 3 (thorough: 4)
 	{
 		ext := []int{}
-		for i := nMain; i < len(menu); i++ {
+		for i := nMain; i < nExtra1; i++ {
 			ext = append(ext, i)
 		}
 		for i, cl := range menu[:nMain] {
@@ -646,6 +719,49 @@ func run(c *runner.Ctx) {
 		}
 		for l := 1; l <= maxE; l++ {
 			c.Space(fmt.Sprintf("file-system-and-extractor-calls/sequences-len%d", l))
+			total := 1
+			for i := 0; i < l; i++ {
+				total *= len(ext)
+			}
+			for x := 0; x < total; x++ {
+				if !c.Take() {
+					continue
+				}
+				seq := make([]int, l)
+				y := x
+				for i := l - 1; i >= 0; i-- {
+					seq[i] = ext[y%len(ext)]
+					y /= len(ext)
+				}
+				bd := 2
+				if l >= 4 {
+					bd = 1
+				}
+				explore(seq, bd)
+			}
+			if c.Expired() {
+				return
+			}
+		}
+	}
+	// the group / unique / abandoned calls with five calls of the main menu: every sequence up to length 3 (thorough: 4)
+	{
+		ext := []int{}
+		for i := nExtra1; i < len(menu); i++ {
+			ext = append(ext, i)
+		}
+		for i, cl := range menu[:nMain] {
+			switch cl.name {
+			case "Struct(T1)", "Struct(T4 groups)", "Var(quoted-fail)", "Map", "Url":
+				ext = append(ext, i)
+			}
+		}
+		maxE := 3
+		if c.Thorough() {
+			maxE = 4
+		}
+		for l := 1; l <= maxE; l++ {
+			c.Space(fmt.Sprintf("group-unique-and-abandoned-calls/sequences-len%d", l))
 			total := 1
 			for i := 0; i < l; i++ {
 				total *= len(ext)
@@ -752,7 +868,7 @@ func main() {
 	runner.Main(runner.Config{
 		Property:  "C12",
 		Technique: "all call sequences/permutations up to a depth, single-threaded under the controlled scheduler with every sync.Pool.Get answer enumerated (deviation-bounded); fresh-state oracle + aliasing re-reads",
-		Rule: "40 heterogeneous calls + 9 in a space of their own (file / dir rules on one path that is a file, a directory or absent at the time of the call; the explanation extractor on messages without explanation; the clause builders), every sequence <=3 (thorough 4) over these and five main calls; main menu: (calls rejected before validation although they carry rules, one rule-map object whose content differs from call to call, long unsorted slices under unique, datetime with custom and default separators, calls rejected before validation (unsupported / nil source), two rule sets registered in one call, struct with default tag / tag b / per-call rules / per-call functions, group rules over a slice, Var with quoted rules, Map, Url, a call returning before validation, splitter, builder+extractor); " +
+		Rule: "40 heterogeneous calls + 12 in a second space of their own (either / botheq over a slice of maps and over URL parameters, unique over slices that hold NaN, calls abandoned by a caller-supplied function that panics - the caller recovers - through StructForFns / ValidStructForMyValidFn / VarForFn / MapFn / VUrl), every sequence <=3 (thorough 4) over these and five main calls; + 9 in a space of their own (file / dir rules on one path that is a file, a directory or absent at the time of the call; the explanation extractor on messages without explanation; the clause builders), every sequence <=3 (thorough 4) over these and five main calls; main menu: (calls rejected before validation although they carry rules, one rule-map object whose content differs from call to call, long unsorted slices under unique, datetime with custom and default separators, calls rejected before validation (unsupported / nil source), two rule sets registered in one call, struct with default tag / tag b / per-call rules / per-call functions, group rules over a slice, Var with quoted rules, Map, Url, a call returning before validation, splitter, builder+extractor); " +
 			"all sequences of length<=3 (thorough: <=4), all sequences of length 3 again on a one-entry type cache after 0..5 evictions, and all permutations of 4-subsets; per sequence every Pool.Get answer (top / other pooled object / New) within the deviation bound; per call: result = fresh-state result (= model for struct calls), " +
 			"arguments deep-equal to a fresh copy, every previously handed-out error string / rule token re-compared with its detached copy; transitions = scheduling steps; states = distinct result vectors; non-trivial = sequences of >=2 calls",
 		Assumptions: []string{"pool answers are owned by the scheduler shim (sync.Pool replaced through the build overlay)", "global type cache fresh per execution (delegating CacheEr)"},
